@@ -1490,6 +1490,9 @@ def run(ctx: Ctx, driver: Driver):
         ulines.append("rq.url " + " ".join(f"{a}.{i}" for a, i in ids))
     compare_with_model(ctx, "url", ucases, uouts, ulines, driver)
     loop.close()
+    # the payload grouping of _update_subscriptions against the Lean model (Request.groupByAid, theorems C09_subscribe_payload*)
+    from harness.c09_groups import run_groups
+    run_groups(ctx, driver)
 
 
 def replay(ctx, driver, c):
